@@ -225,4 +225,84 @@ theorem C17_firewall_semantics (L : Loaded) (sc : Scenario) (h : L.toScenario = 
           have hni : i ∉ idxs := fun hi => by rw [this.mp hi] at hp; cases hp
           simpa [mem_sortNat] using hni
 
+
+/-- an exploit / escalation written for OS `xos` ("none" parsed to `.null`) fits a host whose file
+entry names OS `hos` -/
+def osMatches (xos hos : Y) : Bool := match xos with | .null => true | _ => xos.pyEq hos
+
+/-- the OS test of the dynamics: an exploit / escalation written for "none" applies to every host,
+one written for an OS name applies exactly to the hosts whose file entry names that OS -/
+theorem os_semantics (osl : List Y) (xos : Y) (o : Option Nat) (ho : optIdx osl xos = some o)
+    (hd : HostDef) (hos : Y) (hx : hd.os = osl.map (fun n => n.pyEq hos)) :
+    NASim.Gen.runsOsH hd o = osMatches xos hos := by
+  unfold osMatches
+  cases xos with
+  | null => simp [optIdx] at ho; subst ho; rfl
+  | bool b =>
+    simp only [optIdx, Option.map_eq_some_iff] at ho
+    obtain ⟨i, hi, rfl⟩ := ho
+    obtain ⟨hlt, hpy⟩ := idxOf_spec hi
+    simp only [NASim.Gen.runsOsH, hx, List.getD_eq_getElem?_getD, List.getElem?_map, List.getElem?_eq_getElem hlt,
+      Option.map_some, Option.getD_some]
+    exact pyEq_congr hpy hos
+  | int b =>
+    simp only [optIdx, Option.map_eq_some_iff] at ho
+    obtain ⟨i, hi, rfl⟩ := ho
+    obtain ⟨hlt, hpy⟩ := idxOf_spec hi
+    simp only [NASim.Gen.runsOsH, hx, List.getD_eq_getElem?_getD, List.getElem?_map, List.getElem?_eq_getElem hlt,
+      Option.map_some, Option.getD_some]
+    exact pyEq_congr hpy hos
+  | num b =>
+    simp only [optIdx, Option.map_eq_some_iff] at ho
+    obtain ⟨i, hi, rfl⟩ := ho
+    obtain ⟨hlt, hpy⟩ := idxOf_spec hi
+    simp only [NASim.Gen.runsOsH, hx, List.getD_eq_getElem?_getD, List.getElem?_map, List.getElem?_eq_getElem hlt,
+      Option.map_some, Option.getD_some]
+    exact pyEq_congr hpy hos
+  | str b =>
+    simp only [optIdx, Option.map_eq_some_iff] at ho
+    obtain ⟨i, hi, rfl⟩ := ho
+    obtain ⟨hlt, hpy⟩ := idxOf_spec hi
+    simp only [NASim.Gen.runsOsH, hx, List.getD_eq_getElem?_getD, List.getElem?_map, List.getElem?_eq_getElem hlt,
+      Option.map_some, Option.getD_some]
+    exact pyEq_congr hpy hos
+  | list b =>
+    simp only [optIdx, Option.map_eq_some_iff] at ho
+    obtain ⟨i, hi, rfl⟩ := ho
+    obtain ⟨hlt, hpy⟩ := idxOf_spec hi
+    simp only [NASim.Gen.runsOsH, hx, List.getD_eq_getElem?_getD, List.getElem?_map, List.getElem?_eq_getElem hlt,
+      Option.map_some, Option.getD_some]
+    exact pyEq_congr hpy hos
+  | map b =>
+    simp only [optIdx, Option.map_eq_some_iff] at ho
+    obtain ⟨i, hi, rfl⟩ := ho
+    obtain ⟨hlt, hpy⟩ := idxOf_spec hi
+    simp only [NASim.Gen.runsOsH, hx, List.getD_eq_getElem?_getD, List.getElem?_map, List.getElem?_eq_getElem hlt,
+      Option.map_some, Option.getD_some]
+    exact pyEq_congr hpy hos
+
+/-- C17 → C01: exploit `e` (from the file's entry `X`) applies to host `hd` (from the file's host
+entry with OS `hos` and service list `hsv`) in the sense the dynamics and the generator use
+(`vulnE`) exactly when the file lists the exploit's service among the host's services and the
+exploit is written for "none" or for the host's OS -/
+theorem C17_exploit_applies_iff (services os : List Y) (X : ExplL) (e : ExploitDef)
+    (hXe : ExplL.toDef services os X = some e) (x : HostL) (hsv : List Y) (hos : Y)
+    (hxs : x.services = services.map (fun s => pyIn s hsv)) (hxo : x.os = os.map (fun n => n.pyEq hos))
+    (hd : HostDef) (hxd : HostL.toDef services x = some hd) :
+    NASim.Gen.vulnE hd e = (pyIn X.service hsv && osMatches X.os hos) := by
+  have h1 := C17_exploit_service_semantics services os X e hXe x hsv hxs hd hxd
+  have hdo : hd.os = os.map (fun n => n.pyEq hos) := by
+    unfold HostL.toDef at hxd
+    simp only [Option.bind_eq_bind, Option.bind_eq_some_iff, Option.pure_def, Option.some.injEq] at hxd
+    obtain ⟨v, _, fw, _, rfl⟩ := hxd
+    exact hxo
+  have hoe : optIdx os X.os = some e.os := by
+    unfold ExplL.toDef at hXe
+    simp only [Option.bind_eq_bind, Option.bind_eq_some_iff, Option.pure_def, Option.some.injEq] at hXe
+    obtain ⟨i, _, o, ho, cost, _, rfl⟩ := hXe
+    exact ho
+  have h2 := os_semantics os X.os e.os hoe hd hos hdo
+  unfold NASim.Gen.vulnE
+  rw [h1, h2]
+
 end NASim.Load
